@@ -372,3 +372,19 @@ for _i in range(C19_CLASSES):
     for _fl in ("p", "d", "g"):
         globals()[f"c19_{_fl}{_i}"] = _c19_make(f"c19_{_fl}{_i}")
 del _i, _fl
+
+
+def c05_mutate(rows: list) -> list:
+    """sorts its (possibly externalised) argument IN PLACE and returns the same object"""
+    rows.sort()
+    rows.append(len(rows))
+    return rows
+
+
+C05_GROWING: list = []
+
+
+def c05_growing(n: int) -> list:
+    """returns the same module-level list, grown, on every call"""
+    C05_GROWING.extend(range(len(C05_GROWING), len(C05_GROWING) + n))
+    return C05_GROWING
